@@ -688,12 +688,8 @@ fn define_extern_go(env: &mut PackageTypeEnv, diagnostics: &mut Diagnostics, ext
         ));
         return;
     }
-    env.current_mut().register_extern_function(
-        goml_name,
-        ext.package_path.clone(),
-        go_name,
-        fn_ty,
-    );
+    env.current_mut()
+        .register_extern_function(goml_name, ext.package_path.clone(), go_name, fn_ty);
 }
 
 fn define_extern_type(
